@@ -18,6 +18,7 @@ import (
 	"os/exec"
 	"path/filepath"
 	"runtime"
+	"runtime/debug"
 	"sort"
 	"strconv"
 	"strings"
@@ -664,6 +665,7 @@ func main() {
 	}
 	native.Contracts[utils.NodeManagerContractAddress] = node_manager.RegisterNodeManagerContract
 	r := ev.Start("C12", "fault_enumeration")
+	debug.SetGCPercent(1000) // every block execution / store open allocates multi-MiB buffers: keep freed spans for reuse
 	L := r.QT(3, 5)
 	if v := os.Getenv("C12_L"); v != "" {
 		L, _ = strconv.Atoi(v)
